@@ -184,6 +184,9 @@ class LibMixin:
         fm = ModuleModel('functools')
         fm.ns['partial'] = Builtin('partial', lambda I, a, k: Partial(a[0], a[1:], k))
         fm.ns['lru_cache'] = Builtin('lru_cache', self.bi_lru_cache)
+        # functools.cached_property is read as a plain property (T3: memoisation is transparent); whether a cached
+        # value can go stale after an in-place change is left to the native runs of the contracts and lemmas
+        fm.ns['cached_property'] = Builtin('cached_property', self.bi_property)
         self.stub_modules['functools'] = fm
         # itertools
         im = ModuleModel('itertools')
